@@ -135,8 +135,8 @@ let print_state tag (t : topo) =
   List.iter (fun (n, v) -> Printf.printf "SI %s %s %s\n" tag (ocaml_string n) (ocaml_string v)) t.t_infos
 
 let hyp tag (t : topo) =
-  Printf.printf "hyp %s keys_unique=%s vals_u64=%s names_set=%s info_names_nodup=%s info_pairs_nodup=%s no_hetero=%s tmem_consistent=%s\n"
-    tag (b01 (keys_unique t)) (b01 (vals_u64 t)) (b01 (names_set t)) (b01 (info_names_nodup t)) (b01 (info_pairs_nodup t))
+  Printf.printf "hyp %s keys_unique=%s depths_ok=%s vals_u64=%s names_set=%s info_names_nodup=%s info_pairs_nodup=%s no_hetero=%s tmem_consistent=%s\n"
+    tag (b01 (keys_unique t)) (b01 (depths_addressable t)) (b01 (vals_u64 t)) (b01 (names_set t)) (b01 (info_names_nodup t)) (b01 (info_pairs_nodup t))
     (b01 (no_hetero_dists t)) (b01 (tmem_consistent t))
 
 let entry_nonnull = function EAttr (_, _, DName (o, n)) -> o <> None && n <> None | _ -> true
